@@ -350,7 +350,51 @@ func (m *MsgClaim) ValidateBasic() (err error) {
 	if !ok {
 		return sdkerrors.ErrInvalidRequest.Wrapf("expected claim type %T, got %T", new(ExternalClaim), m.Claim.GetCachedValue())
 	}
-	return claim.ValidateBasic()
+	if err = claim.ValidateBasic(); err != nil {
+		return err
+	}
+	// the transaction is signed by the bridger address of this message,
+	// the vote is counted for the bridger address of the claim: they must be the same account
+	signer, err := sdk.AccAddressFromBech32(m.BridgerAddress)
+	if err != nil {
+		return sdkerrors.ErrInvalidAddress.Wrapf("invalid bridger address: %s", err)
+	}
+	if !signer.Equals(claim.GetClaimer()) {
+		return sdkerrors.ErrInvalidRequest.Wrap("bridger address does not match the claim")
+	}
+	return nil
+}
+
+func (m *MsgConfirm) ValidateBasic() (err error) {
+	if _, ok := externalAddressRouter[m.ChainName]; !ok {
+		return sdkerrors.ErrInvalidRequest.Wrap("unrecognized cross chain name")
+	}
+	if m.Confirm == nil {
+		return sdkerrors.ErrInvalidRequest.Wrap("empty confirm")
+	}
+	confirm, ok := m.Confirm.GetCachedValue().(Confirm)
+	if !ok {
+		return sdkerrors.ErrInvalidRequest.Wrapf("expected confirm type %T, got %T", new(Confirm), m.Confirm.GetCachedValue())
+	}
+	if msg, ok := confirm.(sdk.HasValidateBasic); ok {
+		if err = msg.ValidateBasic(); err != nil {
+			return err
+		}
+	}
+	// the transaction is signed by the bridger address of this message,
+	// the confirmation is stored for the bridger address of the confirm: they must be the same account
+	signer, err := sdk.AccAddressFromBech32(m.BridgerAddress)
+	if err != nil {
+		return sdkerrors.ErrInvalidAddress.Wrapf("invalid bridger address: %s", err)
+	}
+	bridger, err := sdk.AccAddressFromBech32(confirm.GetBridgerAddress())
+	if err != nil {
+		return sdkerrors.ErrInvalidAddress.Wrapf("invalid confirm bridger address: %s", err)
+	}
+	if !signer.Equals(bridger) {
+		return sdkerrors.ErrInvalidRequest.Wrap("bridger address does not match the confirm")
+	}
+	return nil
 }
 
 func (m *MsgClaim) GetSigners() []sdk.AccAddress {
